@@ -17,7 +17,6 @@
 package martian
 
 import (
-	"errors"
 	"fmt"
 	"io"
 	"net/http"
@@ -147,9 +146,9 @@ func (p proxyHandler) handleUpgradeResponse(rw http.ResponseWriter, req *http.Re
 
 	uconn, ok := res.Body.(io.ReadWriteCloser)
 	if !ok {
-		log.Error(ctx, "upgrade tunnel: internal error: switching protocols response with non-ReadWriteCloser body", "type", resUpType)
-		p.traceWroteResponse(res, errors.New("switching protocols response with non-writable body"))
-		panic(http.ErrAbortHandler)
+		log.Error(ctx, "upgrade tunnel: switching protocols response with non-ReadWriteCloser body", "type", resUpType)
+		p.writeErrorResponse(rw, req, errNoProtocolSwitch)
+		return
 	}
 	res.Body = panicBody
 
